@@ -855,6 +855,78 @@ pub fn run_c05(cfg: &Cfg, out: &mut Out) -> String {
         let avail = gen_available(&mut r);
         c05_tree(out, &a, avail);
     }
+    // toggle stream: lay the tree out with every node visible, hide one to three nodes through set_style, lay out again:
+    // clause (i) (all-zero layouts at and below display:none) on the layouts the long-lived tree now reports
+    let base = idx + n;
+    let nt = cfg.n(2500, 40_000);
+    for i in 0..nt {
+        let ci = base + i;
+        if !cfg.wants(ci) {
+            continue;
+        }
+        let mut r = Rng::for_case(cfg.seed, ci);
+        out.begin_case(ci, "hidden-after-toggle");
+        let mut a = gen_tree_min(&mut r, &gc, 3);
+        fn unhide(t: &mut TreeDesc, r: &mut Rng) {
+            if t.style.display == Display::None {
+                t.style.display = *r.pick(&[Display::Block, Display::Flex, Display::Grid]);
+            }
+            for c in &mut t.children {
+                unhide(c, r);
+            }
+        }
+        unhide(&mut a, &mut r);
+        let avail = gen_available(&mut r);
+        let k = 1 + r.below(3);
+        let picks = pick_nonroot(&mut r, a.count(), k);
+        let mut a2 = a.clone();
+        for &h in &picks {
+            node_at_mut(&mut a2, h).style.display = Display::None;
+        }
+        let res = layout_fresh(&a, avail, false).and_then(|(mut t, root)| {
+            catch(move || {
+                let mut ids = vec![];
+                preorder_ids(&t, root, &mut ids);
+                let mut nodes = vec![];
+                a2.preorder(&mut nodes);
+                for &h in &picks {
+                    t.set_style(ids[h], nodes[h].style.clone()).unwrap();
+                }
+                t.compute_layout_with_measure(root, avail, |k, a, _id, ctx, _style| measure(k, a, ctx)).unwrap();
+                (a2, all_layouts(&t, root, true))
+            })
+        });
+        match res {
+            Ok((a2, l2)) => {
+                let hid = hidden_flags(&a2);
+                count_tree(out, &a2);
+                out.count(&format!("toggled-nodes:{k}"));
+                let mut nodes = vec![];
+                a2.preorder(&mut nodes);
+                let info = flatten(&a2);
+                for h in (1..nodes.len()).filter(|&i| nodes[i].style.display == Display::None) {
+                    out.count(&format!("toggled-parent:{}", display_key(nodes[info[h].parent.unwrap()].style.display)));
+                    if info[h].size > 1 {
+                        out.nontrivial();
+                    }
+                }
+                let ans = c05_judge(&hid, &l2, &l2, None);
+                if ans != "ok" {
+                    out.impl_violation(format!(
+                        "sig:c05-hidden-not-zero-after-toggle {ans}; laid out visible, then set_style(display:none) on the hidden nodes, laid out again; avail {} ; tree (after the toggle) = {}",
+                        avs(avail),
+                        a2.line()
+                    ));
+                }
+                obs(out, "C05", &format!("{} - 0", avs(avail)), &a2, &a2, &l2, &l2, &ans);
+            }
+            Err(m) => {
+                out.count("toggle:panic");
+                let _ = m;
+                out.qa("panic C05 both", "ok");
+            }
+        }
+    }
     String::new()
 }
 
